@@ -6,12 +6,15 @@ from bounded import stil_drv
 def run(tier, seed):
     res = PropertyResult('C18', 'other', '')
     try:
-        from contracts import logic_c
+        from contracts import logic_c, stil_c
         from pyvc.verify import verify
-        res.report = verify(logic_c.transition_targets(), timeout_s=20)
+        res.report = verify(logic_c.transition_targets() + stil_c.targets(), timeout_s=20 if tier == 'quick' else 120)
     except (ImportError, AttributeError):
         res.report = None
-    res.explanation = ('Tier P (small): logic.mv_transition is proved against its value-level spec for all value pairs (element abstraction) where discharged in this run. '
+    res.explanation = ('Tier P: logic.mv_transition is proved against its value-level spec for all value pairs (element abstraction); the per-chain body of StilFile._maps is executed '
+                       'symbolically for a chain of any length with cells and inverter markers in any order (two loops, a list reversal): for every cell, at its distance t from the scan-out end, '
+                       'scan_map[t] is its interface position, the scan-in inversion[t] is the parity of the markers between scan-in and the cell and the scan-out inversion[t] the parity of the '
+                       'markers between the cell and scan-out; all three sequences have one entry per cell; both ports of the chain share the map. '
                        'Tier B (bounded, the deciding part): round-trip contract with a spec-side STIL printer -- tests(), responses() and tests_loc() equal the ghost ground truth '
                        '(intended value per flip-flop / port and pattern) for generated scan circuits, chain orders, inversion-marker placements, signal-group orders and pattern '
                        'sets with and without launch / capture clock pulses.')
